@@ -5,6 +5,7 @@ From NV Require Import FatTable.Model FatTable.ProofsBase FatTable.ProofsSet32 F
 From NV Require Import FatAlloc.Model FatAlloc.ProofsBase FatAlloc.ProofsGrow FatAlloc.ProofsOps FatAlloc.ProofsWrite FatAlloc.ProofsFrame FatAlloc.Proofs.
 From NV Require Import FatRead.Model FatData.Model FatData.Spec FatData.ProofsBase FatData.Proofs.
 From NV Require FatDir.Model FatDir.ProofsBase FatDir.ProofsView FatDir.ProofsClean FatDir.ProofsOps FatDir.ProofsAppend FatDir.ProofsMain.
+From NV Require FatVol.Model FatVol.Spec FatVol.ProofsBase FatVol.ProofsInv FatVol.Proofs.
 Import ListNotations.
 Open Scope N_scope.
 
@@ -67,9 +68,25 @@ Print Assumptions C10_clean_preserves_listing.
 
 (* a fixed root: ENOSPC exactly when, even after compaction, the new records plus the end-of-directory record do not fit; the directory then lists and resolves exactly as before *)
 Theorem C10_root_full_enospc :
-  forall (upper : list N -> list N) (spc : N) (d : Model.dir) (name : list N) (entry : Model.rec) (recs_new : list Model.rec), ProofsClean.wf_recs (Model.d_recs d) -> ProofsView.cap_ok d -> 0 < spc -> ProofsOps.entry_ok entry -> name <> [] -> ProofsLfn.name_ok name = true -> (length (Model.utf16 name) <= 255)%nat -> ProofsNames.ends_ffff name = false -> ~ In 229 (upper (Model.lstrip_dots name)) -> (forall a : N, Model.case_attr name (fst (Model.short_parts name (upper (Model.lstrip_dots name)))) (snd (Model.short_parts name (upper (Model.lstrip_dots name)))) = Some a -> fst (Model.short_parts name (upper (Model.lstrip_dots name))) <> []) -> Model.find upper (upper name) (upper name) (Model.groups (Model.d_recs d)) = Ok None -> (do xs <- Model.split_all (Model.groups (Model.d_recs d)); Model.prefix_entries name (upper (Model.lstrip_dots name)) (Model.existing_of upper xs) entry) = Ok recs_new -> forall n : N, Model.d_cap d = Some n -> ProofsClean.tidy (Model.d_recs d) = true -> let e1 := snd (Model.clean d) in (snd (Model.setitem upper spc d name entry) = Some OSError_ENOSPC <-> n <= Model.last_end (Model.groups (Model.d_recs d)) + N.of_nat (length recs_new) /\ n <= e1 + N.of_nat (length recs_new)) /\ (snd (Model.setitem upper spc d name entry) = Some OSError_ENOSPC -> fst (Model.setitem upper spc d name entry) = fst (Model.clean d) /\ ProofsView.view (Model.d_recs (fst (Model.clean d))) = ProofsView.view (Model.d_recs d) /\ Model.listing (fst (Model.clean d)) = Model.listing d /\ (forall key : list N, Model.getitem upper (fst (Model.clean d)) key = Model.getitem upper d key) /\ (forall key : list N, Model.contains upper (fst (Model.clean d)) key = Model.contains upper d key)) /\ (snd (Model.setitem upper spc d name entry) <> Some OSError_ENOSPC -> snd (Model.setitem upper spc d name entry) = None).
+  forall (upper : list N -> list N) (spc : N) (d : Model.dir) (name : list N) (entry : Model.rec) (recs_new : list Model.rec), ProofsClean.wf_recs (Model.d_recs d) -> ProofsView.cap_ok d -> 0 < spc -> ProofsOps.entry_ok entry -> name <> [] -> ProofsLfn.name_ok name = true -> (length (Model.utf16 name) <= 255)%nat -> ProofsNames.ends_ffff name = false -> ~ In 229 (upper (FatDir.Model.lstrip_dots name)) -> (forall a : N, Model.case_attr name (fst (Model.short_parts name (upper (FatDir.Model.lstrip_dots name)))) (snd (Model.short_parts name (upper (FatDir.Model.lstrip_dots name)))) = Some a -> fst (Model.short_parts name (upper (FatDir.Model.lstrip_dots name))) <> []) -> Model.find upper (upper name) (upper name) (Model.groups (Model.d_recs d)) = Ok None -> (do xs <- Model.split_all (Model.groups (Model.d_recs d)); Model.prefix_entries name (upper (FatDir.Model.lstrip_dots name)) (FatDir.Model.existing_of upper xs) entry) = Ok recs_new -> forall n : N, Model.d_cap d = Some n -> ProofsClean.tidy (Model.d_recs d) = true -> let e1 := snd (Model.clean d) in (snd (FatDir.Model.setitem upper spc d name entry) = Some OSError_ENOSPC <-> n <= Model.last_end (Model.groups (Model.d_recs d)) + N.of_nat (length recs_new) /\ n <= e1 + N.of_nat (length recs_new)) /\ (snd (FatDir.Model.setitem upper spc d name entry) = Some OSError_ENOSPC -> fst (FatDir.Model.setitem upper spc d name entry) = fst (Model.clean d) /\ ProofsView.view (Model.d_recs (fst (Model.clean d))) = ProofsView.view (Model.d_recs d) /\ Model.listing (fst (Model.clean d)) = Model.listing d /\ (forall key : list N, Model.getitem upper (fst (Model.clean d)) key = Model.getitem upper d key) /\ (forall key : list N, Model.contains upper (fst (Model.clean d)) key = Model.contains upper d key)) /\ (snd (FatDir.Model.setitem upper spc d name entry) <> Some OSError_ENOSPC -> snd (FatDir.Model.setitem upper spc d name entry) = None).
 Proof. exact FatDir.ProofsMain.root_full_enospc. Qed.
 Print Assumptions C10_root_full_enospc.
+
+(* whole-volume invariant (no lost / shared cluster, sizes match chains, tree-shaped) after ANY history of path operations, whatever fails with ENOSPC on the way (mkdir releases its cluster, a failed unlink / rmdir changes nothing) *)
+Theorem C10_path_history_inv :
+  forall (upper : Model.name -> Model.name) (V : Model.vparams), ProofsInv.params_wf V -> forall (ops : list Model.op) (s : Model.vol), ProofsInv.VolInv upper V s -> Proofs.run_guard upper V s ops -> ProofsInv.VolInv upper V (fst (Model.run upper V s ops)).
+Proof. exact FatVol.Proofs.FV_history_inv. Qed.
+Print Assumptions C10_path_history_inv.
+
+Theorem C10_unlink_fail_unchanged :
+  forall (upper : Model.name -> Model.name) (V : Model.vparams) (s : Model.vol) (p : list Model.name) (x : exn), snd (Model.unlink upper V s p) = Err x -> fst (Model.unlink upper V s p) = s.
+Proof. exact FatVol.Proofs.FV_unlink_fail_unchanged. Qed.
+Print Assumptions C10_unlink_fail_unchanged.
+
+Theorem C10_rmdir_fail_unchanged :
+  forall (upper : Model.name -> Model.name) (V : Model.vparams) (s : Model.vol) (p : list Model.name) (x : exn), snd (Model.rmdir upper V s p) = Err x -> fst (Model.rmdir upper V s p) = s.
+Proof. exact FatVol.Proofs.FV_rmdir_fail_unchanged. Qed.
+Print Assumptions C10_rmdir_fail_unchanged.
 
 Theorem C10_history_wf :
   forall bits cs limit : N, 0 < cs -> limit <= max_valid (PB bits) + 1 -> forall (ops : list (nat * ProofsFrame.op)) (v : volume), vol_wf (PB bits) cs limit v -> vol_wf (PB bits) cs limit (fold_left (vstep (PB bits) cs limit) ops v) /\ (forall c : N, foreign v c -> foreign (fold_left (vstep (PB bits) cs limit) ops v) c /\ get (ftbl (vfat (fold_left (vstep (PB bits) cs limit) ops v))) c = get (ftbl (vfat v)) c).
